@@ -97,7 +97,9 @@ func tokenSpans(b []byte) [][2]int {
 		out = append(out, [2]int{i, j})
 		i = j
 		if len(out) > 200000 {
-			out = append(out, [2]int{i, len(b)})
+			if i < len(b) {
+				out = append(out, [2]int{i, len(b)})
+			}
 			break
 		}
 	}
